@@ -68,13 +68,14 @@ type Exec struct {
 	H *HarnessState
 	TermsBy map[string]int
 	SummaryUses int
+	Notes map[string]int
 	ExactSliderUses int
 }
 
 func New(c *sym.Ctx, prog *ssa.Program) *Exec {
 	return &Exec{C: c, Prog: prog, Globals: map[*ssa.Global]*Obj{}, Intrinsics: map[string]Intrinsic{},
 		LoopBound: 8, LoopBounds: map[string]int{}, MaxDepth: 64, Reindex: true, FuncsSeen: map[string]int{},
-		strObjs: map[string]*Obj{}, loopCache: map[*ssa.Function]*loopInfo{}, StubCalls: map[string]int{}, TermsBy: map[string]int{}}
+		strObjs: map[string]*Obj{}, loopCache: map[*ssa.Function]*loopInfo{}, StubCalls: map[string]int{}, TermsBy: map[string]int{}, Notes: map[string]int{}}
 }
 
 type deferred struct {
@@ -1596,3 +1597,6 @@ func isClearLowest(v ssa.Value, x ssa.Value) bool {
 	}
 	return false
 }
+
+// Note records a named counter for the evidence.
+func (x *Exec) Note(name string, v int) { x.Notes[name] += v }
